@@ -654,6 +654,8 @@ class Channel(typing.ContextManager):
 
         s = s.encode("utf-8") if isinstance(s, str) else s
 
+        start_time = time.monotonic()
+
         # Let's not overwhelm the channel-io by sending too much at once...
         s_iter = iter(s)
         while True:
@@ -668,7 +670,11 @@ class Channel(typing.ContextManager):
                 # and read two characters for every '\r' or '\n' sent.  This might
                 # be flawed in some cases, though ...
                 length = len(chunk) + chunk.count(b"\r") + chunk.count(b"\n")
-                self.read(n=length, timeout=timeout)
+                # The timeout is for the whole call, not for each chunk
+                timeout_remaining = None
+                if timeout is not None:
+                    timeout_remaining = timeout - (time.monotonic() - start_time)
+                self.read(n=length, timeout=timeout_remaining)
 
     def sendline(
         self,
